@@ -26,6 +26,7 @@ type Violation struct {
 	Func    string            `json:"func"`
 	Tier    int               `json:"tier"`
 	Expect  string            `json:"expect,omitempty"`
+	ChoiceTags []string       `json:"choice_tags,omitempty"`
 }
 
 // Explorer drives the exploration of one harness.
@@ -331,6 +332,18 @@ func (in *Interp) addPC(c *Term) {
 	if c.IsTrue() {
 		return
 	}
+	if in.path.pcSet == nil {
+		in.path.pcSet = map[uint32]bool{}
+	}
+	if in.path.pcSet[c.ID] {
+		return
+	}
+	in.path.pcSet[c.ID] = true
+	if c.Op == OpAnd {
+		for _, a := range c.Args {
+			in.path.pcSet[a.ID] = true
+		}
+	}
 	in.path.pc = append(in.path.pc, c)
 	if in.sol != nil {
 		in.sol.Assert(c)
@@ -366,6 +379,13 @@ func (in *Interp) Branch(c *Term) bool {
 	p := in.path
 	if in.ex.Replay != nil {
 		panic(&pathEnd{kind: "inconclusive", reason: "replay: non-constant branch condition " + c.String() + " @ " + in.where()})
+	}
+	// already decided on this path? (no solver call, no trace entry)
+	if p.pcSet[c.ID] {
+		return true
+	}
+	if p.pcSet[in.tb.Not(c).ID] {
+		return false
 	}
 	if len(p.trace) < len(p.prefix) {
 		v := p.prefix[len(p.trace)]
@@ -553,7 +573,7 @@ func (in *Interp) reach(tag string) {
 	m, order := in.model()
 	if m != nil {
 		w := &Violation{Kind: "witness", Msg: tag, Harness: ex.Harness, Func: ex.Entry.Name(), Tier: ex.Tier, Model: m, Order: order,
-			Choices: append([]uint64(nil), in.path.choices...), Expect: "reach:" + tag}
+			Choices: append([]uint64(nil), in.path.choices...), Expect: "reach:" + tag, ChoiceTags: append([]string(nil), in.path.choiceTags...)}
 		ex.mu.Lock()
 		if _, have := ex.ReachModels[tag]; !have {
 			ex.ReachModels[tag] = w
@@ -603,6 +623,7 @@ func (in *Interp) reportViolation(kind, msg, site, stack string) {
 	}
 	v.Trace = append([]uint64(nil), in.path.trace...)
 	v.Choices = append([]uint64(nil), in.path.choices...)
+	v.ChoiceTags = append([]string(nil), in.path.choiceTags...)
 	v.Key = kind + "|" + msg + "|" + site + "|" + stackHead(stack, 3)
 	ex.mu.Lock()
 	defer ex.mu.Unlock()
